@@ -689,9 +689,11 @@ def run(ctx: Context) -> None:
     sub._resolver = ctx._resolver
     c02.r1_sqlite(sub, sqlmini.sites(ctx.repo))
     c02.r2_r3_mem(sub)
+    c02.r7_refusal_propagates(sub)
+    c02.r8_own_identity(sub)
     for i in sub.instances:
         k = i.key.split("/", 2)[2]
-        if "_atomic_status_transition" in k or "MemOrchestrator" in k:  # the status transition only (the queue pop is C02 / C08)
+        if "_atomic_status_transition" in k or "MemOrchestrator" in k or "runner-id-is-own" in k or "refusal-of" in k:  # the status transition only (the queue pop is C02 / C08)
             ctx.add("R6", k, i.ok, i.where, i.detail)
     ctx.floor("R6", "atomic-step obligations", ctx.count("R6"), 8)
     # R7: a refused request changes NOTHING: in set_invocation_status every effectful call (waiter release, purge registration,
